@@ -461,7 +461,22 @@ class StreamResponse(
         if self._payload_writer is None:
             raise RuntimeError("Cannot call write() before prepare()")
 
+        if self._sends_no_body():
+            return
         await self._payload_writer.write(data)
+
+    def _sends_no_body(self) -> bool:
+        """A response to HEAD, or with status 204 / 304, ends with its headers.
+
+        Whatever the handler writes is dropped (a GET handler also serves
+        HEAD): on the wire it would be read as the start of the next
+        response.  101 and a successful CONNECT are not covered, what is
+        written after them belongs to the new protocol.
+        """
+        return bool(self._must_be_empty_body) and (
+            self.status in (204, 304)
+            or (self._req is not None and self._req.method == hdrs.METH_HEAD)
+        )
 
     async def drain(self) -> None:
         assert not self._eof_sent, "EOF has already been sent"
@@ -483,6 +498,8 @@ class StreamResponse(
 
         assert self._payload_writer is not None, "Response has not been started"
 
+        if self._sends_no_body():
+            data = b""
         await self._payload_writer.write_eof(data)
         self._eof_sent = True
         self._req = None
